@@ -1001,3 +1001,12 @@ func init() {
 	mutant("duplicate-scheme-accepted", "pseudo-headers-once", "serverConn.go", "				if strm.pseudoScheme {\n					return sc.rejectBlock(strm, fr, b, NewResetStreamError(ProtocolError, \"duplicate :scheme pseudo-header\"))\n				}\n", "")
 	mutant("authority-not-mapped-to-host", "pseudo-headers-once", "serverConn.go", "				req.Header.SetHostBytes(v)\n				req.Header.AddBytesV(\"Host\", v)\n", "				req.Header.SetHostBytes(v)\n")
 }
+
+func init() {
+	mutant("finished-response-leaves-its-body-open", "response-body-closed-with-the-response", "serverConn.go", "	sc.closeBodyStream(strm)\n\n	return true\n}", "	return true\n}")
+	mutant("failed-body-read-leaves-the-stream-open", "response-body-closed-with-the-response", "serverConn.go", "				sc.closeBodyStream(strm)\n				sc.resetStream(strm, InternalError)", "				sc.resetStream(strm, InternalError)")
+}
+
+func init() {
+	mutant("scheme-never-reaches-the-uri", "pseudo-headers-once", "serverConn.go", "			strm.ctx.Request.URI().SetSchemeBytes(strm.scheme)\n", "")
+}
